@@ -174,8 +174,41 @@ Definition SS := SS_gen true.
    pairing at matched labels is still reported for comparison operators) *)
 Definition SSm := SS_gen false.
 
+(* kernel: IndexCorrespondence.from_correspondence observed as (has_common, is_subset, size, iloc_src, iloc_dst);
+   (dst, src) position pairs are compared as a set when not a subset (the order of the common labels may
+   be a hash order) *)
+Definition pairs_nat_sorted (dst src : list nat) : list (Z * Z) :=
+  isort (Z * Z) (fun p q => fst p <=? fst q) (combine (map Z.of_nat dst) (map Z.of_nat src)).
+
+Definition MIC (hier : bool) (dsrc ddst : dtype) (src dst : list val)
+  (ohc osub : bool) (osize : Z) (osrc odst : list Z) : bool :=
+  match M_from_correspondence val val_eqb val_leb val_sortable
+          (if hier then objpath_2d dsrc ddst else objpath_1d dsrc ddst) src dst with
+  | None => false
+  | Some c =>
+      Bool.eqb (ic_has_common c) ohc && Bool.eqb (ic_is_subset c) osub && (Z.of_nat (ic_size c) =? osize) &&
+      list_eqb (pair_eqb Z.eqb Z.eqb) (pairs_nat_sorted (ic_dst c) (ic_src c))
+               (isort (Z * Z) (fun p q => fst p <=? fst q) (combine odst osrc))
+  end.
+
+(* the specification of a correspondence: exactly the destination positions whose label the source has,
+   each paired with the position of that label in the source *)
+Definition SIC (src dst : list val) (ohc osub : bool) (osize : Z) (osrc odst : list Z) : bool :=
+  let want := flat_map (fun p => match index_of val val_eqb (snd p) src with
+                                 | Some s => [(fst p, Z.of_nat s)]
+                                 | None => []
+                                 end)
+                       (combine (map Z.of_nat (seq 0 (length dst))) dst) in
+  (osize =? Z.of_nat (length dst)) &&
+  Bool.eqb ohc (negb (Z.of_nat (length want) =? 0)) &&
+  Bool.eqb osub ((Z.of_nat (length want) =? Z.of_nat (length dst)) && negb (Z.of_nat (length dst) =? 0)) &&
+  list_eqb (pair_eqb Z.eqb Z.eqb) want (isort (Z * Z) (fun p q => fst p <=? fst q) (combine odst osrc)).
+
 (* Series op scalar / unlabelled array of the same length: labels unchanged, positional pairing *)
 Definition MSA (o : binop) (swap : bool) (ia va other : list val) (obs : sobs) : bool :=
+  if negb (Z.of_nat (length va) =? Z.of_nat (length other))
+  then match obs with Err e => String.eqb e "ValueError" | Ok _ => false end   (* NumPy cannot broadcast *)
+  else
   match collect (map2 val (option val) (np_op_sw o swap) va other), obs with
   | Ok vs, Ok (ols, ovs) => vlist_eqb ia ols && vlist_eqb vs ovs
   | Err e, Err e' => String.eqb e e'
